@@ -43,7 +43,7 @@ class Model:
                 sim.gravity = "tree"
                 sim.integrator = "leapfrog"
         ref = {"lst": [], "pending": [], "N_active": -1, "nuid": 0, "steps": 0}
-        for k in range(cfg.get("prefill", 0)):
+        for k in range(cfg.get("prefill", 0) + cfg.get("start", 0)):     # "start": a few particles to begin with, full alphabet
             self._add(cfg, sim, ref, 1000 + k, front="c")
         return sim, ref
 
@@ -170,7 +170,7 @@ class Model:
         lst = ref["lst"]
         tree = cfg["tree"]
         forced = cfg["integrator"] in ("mercurius", "trace") and (not tree or cfg.get("hybrid_tree"))
-        tag = "%s/%s%s" % (front, ("tree+" + cfg["integrator"] if cfg.get("hybrid_tree") else "tree") if tree else cfg["integrator"], "/prefill" if cfg.get("prefill") else "")
+        tag = "%s/%s%s" % (front, ("tree+" + cfg["integrator"] if cfg.get("hybrid_tree") else "tree") if tree else cfg["integrator"], "/prefill" if cfg.get("prefill") else ("/start%d" % cfg["start"] if cfg.get("start") else ""))
 
         def fail_expected(call, why):
             """call() must report failure and leave the simulation unchanged"""
@@ -377,7 +377,7 @@ class Model:
                 if got != want:
                     V.append(("py-index:%s" % ("out-of-range-accepted" if want is None else "wrong-slot"), "sim.particles[%d] with N=%d gives slot %s, expected %s after %s [%s]" % (k, n, got, "an exception" if want is None else want, op, tag)))
                     break
-        if kind in ("remove", "remove_hash", "remove_all", "step") and sim.N_active > sim.N and getattr(self, "_nact_ok", True):
+        if kind in ("remove", "remove_hash", "remove_all", "step", "update_tree") and sim.N_active > sim.N and getattr(self, "_nact_ok", True):
             # the force and energy loops run to N_active: a count beyond N makes them read slots that hold no particle
             V.append(("%s:N_active>N" % kind, "N_active=%d exceeds N=%d after %s [%s]" % (sim.N_active, sim.N, op, tag)))
         self._nact_ok = sim.N_active <= sim.N
@@ -400,6 +400,8 @@ def configs(tier):
         cfgs.append({"integrator": "trace", "tree": False, "front": front})
     cfgs.append({"integrator": "mercurius", "tree": True, "hybrid_tree": True, "front": "c"})
     cfgs.append({"integrator": "trace", "tree": True, "hybrid_tree": True, "front": "py"})
+    cfgs.append({"integrator": "ias15", "tree": True, "front": "c", "start": 2})
+    cfgs.append({"integrator": "ias15", "tree": False, "front": "py", "start": 2})
     cfgs.append({"integrator": "ias15", "tree": False, "front": "c", "prefill": 127})
     cfgs.append({"integrator": "ias15", "tree": False, "front": "py", "prefill": 127})
     return cfgs
